@@ -109,6 +109,14 @@ META = {
         "note": "Informer machinery itself (delivery, resync) is client-go's and trusted; events are synthesised by the harness.",
         "technique": "property-based testing (rapid) of event handlers against a required/allowed-set model",
     },
+    "C20": {
+        "text": "Generated interleavings of source sends (all five event types incl. Error with a Status payload), consumer receives, repeated Stops and source "
+                "close against the real hijack watch; the oracle is prefix equality of the relayed events plus clean shutdown (channel closed, no parked "
+                "relay goroutine). Found and repaired the panic on Error events and the relay blocked in send after Stop.",
+        "design_ref": "DESIGN.md section 3, C20",
+        "note": "The harness owns schedule granularity at the level of channel operations it performs itself; interleavings inside the relay goroutine are the Go scheduler's.",
+        "technique": "property-based testing (rapid) over schedules with a prefix/shutdown oracle",
+    },
 }
 
 _pending = "check not built yet in this round of the build; planned per DESIGN.md section 3 (generated-input search applies)"
